@@ -307,6 +307,11 @@ func C13(c *core.Ctx) {
 	c.Import(C03, "R13.12", "the component sizer and writer that every generated Name encoder calls disagree about the length code: the encoder yields a different number of bytes than it announced", 2, func(k string) bool {
 		return strings.HasPrefix(k, "R3.1:length-as-tlnum:Component.") || strings.HasPrefix(k, "R3.1:length-as-nat:std/encoding.Component.")
 	})
+	// ---- R13.18 (shared with C03 R3.16 / R3.20) the shortcut of the component sizer and
+	// writer for one-octet headers stops at 252
+	c.Import(C03, "R13.18", "the component sizer or writer that every generated Name encoder calls takes its one-octet shortcut for a number above 252: a name field announces one size and writes another", 2, func(k string) bool {
+		return strings.HasPrefix(k, "R3.20:one-octet-threshold-is-252:std/encoding.Component.") || strings.HasPrefix(k, "R3.16:single-header-octet-below-253:std/encoding.Component.")
+	})
 	c.Floor("R13.1", "generated files", genFiles, 11)
 	c.Floor("R13.1", "tlv models discovered", len(models), 79)
 	// ---- R13.7 in a map field the value element is looked for in a loop that treats the
